@@ -29,6 +29,7 @@ CLAIMS = {
  "C14": ("model_checking", "Compare.tla: coherence laws (eq iff partial_cmp = Equal, duality, header-then-slice order, eq implies hash-eq, see-through with the same-allocation licence) checked by TLC on every pair of the exhaustive small domain for three carriers; the reference table it exports is compared with the real value types and with every handle kind (Arc, ThinArc, OffsetArc, ArcBorrow, ArcUnion) including relational operators, hashing, Debug/Display and map-key use. Known deviations are listed in known_findings.json.", "reference semantics = Compare.tla's ValEq/ValCmp; exhaustive over the small domain only", "TLA+ comparison specification checked by TLC; TLC-exported reference table compared with the real impls on all pairs", "DESIGN.md §6 C14"),
  "C15": ("model_checking", "Uninit.tla: no slot object destroyed unless written and released through an init-typed handle, header destroyed exactly once, assume_init changes the type only, refused deprecated writes change nothing; every transition over every subset of written slots, constructor, sharing state and drop/assume_init order replayed with identity-tracked header (sized and zero-sized) and elements and fresh-memory poison.", N_GRAPH, T_GRAPH, "DESIGN.md §6 C15"),
  "C16": ("model_checking", "Triomphe.tla with a 4-bit count word and mem::forget: TLC checks that the owner count never exceeds what the word can hold while the process runs and that the abort is terminal; the outcome table of a clone for every value of the word is compared with child processes that preset the real count (10 start classes x 16 clone entry points x std and no_std builds).", "W-bit scale model; counts preset through the tracer; child processes", "TLA+ W-bit count model checked by TLC; TLC's outcome table compared with child processes of the real crate", "DESIGN.md §6 C16"),
+ "C17": ("model_checking", "Serde.tla (trace specification): serialisation is an observer whose serializer calls equal those of the value (errors included); deserialisation yields a fresh sole owner of T's own result or T's own error with no allocation left. Recorded events of the real crate (recording serializer / token deserializer, fault at every k-th callback, every truncation of the input, Arc / shared Arc / UniqueArc, seven payload types) are validated by TLC.", "recorded-trace validation; SerCalls uninterpreted (both logs supplied by the trace)", "TLA+ trace specification (Serde.tla); events recorded from the real crate validated by TLC", "DESIGN.md §6 C17"),
 }
 NA = {
  "C13": "compile-time trait-solver / borrow-checker judgement: no state or transition for a TLA+ specification to explore, and no recordable execution distinguishes a wrong bound (DESIGN.md §6 C13)",
